@@ -225,7 +225,8 @@ def get_folding_profile_section(
         for (ph, dg) in profile:
             ph = round(Decimal(ph), 3)
             if ph >= window[0] and ph <= window[1]:
-                if ph % delta < 0.05 or ph % delta > 0.95:
+                if (ph % delta < Decimal("0.05")
+                        or ph % delta > delta - Decimal("0.05")):
                     str_ += "{0:>6.2f}{1:>10.2f}\n".format(ph, dg)
         str_ += "\n"
     if ph_opt is None or dg_opt is None:
